@@ -154,6 +154,35 @@ fn in_place<T: serde::Serialize + serde::de::DeserializeOwned>(v: &T, place: &mu
     <T as serde::Deserialize>::deserialize_in_place(&mut de, place).map_err(|e| format!("deserialize_in_place failed: {}", e))
 }
 
+/// C19: serialisations that FAIL - the sink refuses a write in the middle of the value (near its
+/// end, further in, in the middle). Their results are of no interest; whatever is serialised next on
+/// this thread (the routes of the next value, a different one) must not see anything they left
+/// behind (scratch buffers of hand-written Serialize impls). Called last for every value.
+fn fail_midway<T: serde::Serialize>(v: &T, k: usize) {
+    struct Failing {
+        left: usize,
+    }
+    impl std::io::Write for Failing {
+        fn write(&mut self, b: &[u8]) -> std::io::Result<usize> {
+            if self.left == 0 {
+                return Err(std::io::Error::new(std::io::ErrorKind::BrokenPipe, "sink closed"));
+            }
+            self.left -= 1;
+            Ok(b.len())
+        }
+        fn flush(&mut self) -> std::io::Result<()> {
+            Ok(())
+        }
+    }
+    // number of write calls of a complete serialisation (serde_json issues one per token)
+    let mut counter = Failing { left: usize::MAX };
+    let _ = serde_json::to_writer(&mut counter, v);
+    let n = usize::MAX - counter.left;
+    for cut in [n / 2, n / 4, 14 + k % 17, 4 + k % 9, 1 + k % 5] {
+        let _ = serde_json::to_writer(Failing { left: n.saturating_sub(cut) }, v);
+    }
+}
+
 fn report(ctx: &mut MonCtx, rule: &str, detail: String) {
     if ctx.found.len() < 8 {
         ctx.found.push((rule.to_string(), detail));
@@ -369,6 +398,7 @@ pub fn fasta_set(set: &fasta::RecordSet, ctx: &mut MonCtx) {
             Err(e) => report(ctx, "C19.set_roundtrip", e),
         }
         ctx.fa_clone_dst = Some(dst);
+        fail_midway(set, ctx.serde_checked as usize);
     }
     if ctx.mon.iters {
         let n = set.len();
@@ -630,6 +660,7 @@ pub fn fastq_set(set: &fastq::RecordSet, ctx: &mut MonCtx) {
             Err(e) => report(ctx, "C19.set_roundtrip", e),
         }
         ctx.fq_clone_dst = Some(dst);
+        fail_midway(set, ctx.serde_checked as usize);
     }
     if ctx.mon.iters {
         let n = set.len();
